@@ -177,6 +177,9 @@ def strategy_(draw: Any) -> Case:
     elif aug == "lone":
         add_file(unit, "lonex", draw(st.integers(0, 2)), imported_by=None)
         compiled += 1
+    # a third of the -O -F cases look at a pair of same-width aliases of different kinds used first in two consecutive
+    # messages, filtered to the LATER one: its functions must not depend on what was rendered before it
+    directed = draw(st.integers(0, 5)) == 2 and S.add_flavour_pair(draw, unit, compiled)
     rch = reach(unit, compiled)
 
     marked = None
@@ -254,6 +257,9 @@ def strategy_(draw: Any) -> Case:
             filt = [draw(st.sampled_from(foreign))] + ([draw(st.sampled_from(own))] if own and draw(st.booleans()) else [])
         else:
             filt = []
+    if directed and marked is None:
+        later = [it.name for it in unit.files[compiled].items if getattr(it, "name", "") in ("Holda", "Holdb")][-1]
+        lang, optimize, endian, filt, fk = "c", True, draw(st.sampled_from(["both", "big", "both", "little"])), [later], "single"
     style = render_bp.Style(comments=draw(st.booleans()), seed=draw(st.integers(0, 999)))
     # the real command line: on ~4% of the cases, and on a third of the -O -F cases (the comma
     # splitting of the -F argument exists only there)
